@@ -94,4 +94,65 @@ inductive Compat : KVs → KVs → Prop
       (∀ k x y, lookup k a = some (.leaf x) → lookup k b = some (.dict y) → False) →
       Compat a b
 
+/-! ### additions for C03/C16 (sections, path writes) -/
+
+/-- the section (nested dict) at a key path; `[]` is the dict itself -/
+def getSec : List Key → KVs → Option KVs
+  | [], m => some m
+  | k :: rest, m => match lookup k m with | some (.dict d) => getSec rest d | _ => none
+
+/-- is the path a section (a nested dict) of `m`? -/
+def isSec (p : List Key) (m : KVs) : Bool := (getSec p m).isSome
+
+/-- is the path a leaf setting of `m`? -/
+def isLeaf (p : List Key) (m : KVs) : Bool := (getLeaf p m).isSome
+
+/-- the sub-dict at `k`, `[]` when `k` is absent or a leaf (`if key not in obj: obj[key] = {}`) -/
+def subDict (k : Key) (m : KVs) : KVs :=
+  match lookup k m with | some (.dict d) => d | _ => []
+
+/-- write a leaf at a key path, creating intermediate dicts (`Environment._path_set`) -/
+def setLeaf : List Key → Leaf → KVs → KVs
+  | [], _, m => m
+  | [k], x, m => insert k (.leaf x) m
+  | k :: k2 :: rest, x, m => insert k (.dict (setLeaf (k2 :: rest) x (subDict k m))) m
+
+/-- `q` is a prefix of `p` -/
+def isPrefixOf : List Key → List Key → Bool
+  | [], _ => true
+  | _ :: _, [] => false
+  | a :: q, b :: p => a == b && isPrefixOf q p
+
+/-- all leaf paths below `path`, in dict order -/
+def leafPaths (path : List Key) : KVs → List (List Key)
+  | [] => []
+  | (k, .leaf _) :: rest => (path ++ [k]) :: leafPaths path rest
+  | (k, .dict d) :: rest => leafPaths (path ++ [k]) d ++ leafPaths path rest
+
+
+/-- does the association list have an entry for `k`? -/
+def hasKey (k : Key) (m : KVs) : Bool := (lookup k m).isSome
+
+mutual
+/-- executable `WF` (sound: `wfB_sound`); structural, so `decide` evaluates it -/
+def wfB : KVs → Bool
+  | [] => true
+  | (k, v) :: rest => (!(hasKey k rest)) && wfVal v && wfB rest
+def wfVal : Val → Bool
+  | .leaf _ => true
+  | .dict d => wfB d
+end
+
+mutual
+/-- executable `Compat` (sound: `compatB_sound`); structural, so `decide` evaluates it -/
+def compatB : KVs → KVs → Bool
+  | [], _ => true
+  | (k, v) :: rest, b => compatVal v (lookup k b) && compatB rest b
+def compatVal : Val → Option Val → Bool
+  | .dict x, some (.dict y) => compatB x y
+  | .dict _, some (.leaf _) => false
+  | .leaf _, some (.dict _) => false
+  | _, _ => true
+end
+
 end Inv
